@@ -1,0 +1,11 @@
+//go:build verif
+// +build verif
+
+package explore
+
+import "time"
+
+// VerifSetRetryInterval shortens the retry interval of failed explorations (verification hook, build tag "verif").
+func (e *Explore) VerifSetRetryInterval(d time.Duration) {
+	e.retryInterval = d
+}
